@@ -2140,7 +2140,15 @@ func (c *Ctx) noLocksAtDispatchRule(rule string) {
 	// ... and at every call of the fan-out function itself (the must-lockset on entry to it is the intersection
 	// over its callers: one caller holding a lock would be hidden there)
 	nc := 0
+	evSites := append([]ssa.CallInstruction{}, c.Callers(c.A.ConnDispatch)...)
+	// ... and of an event helper that only builds the line and hands it to the fan-out function
+	cmdVar := c.FieldVar(c.Client, "Line", "Cmd")
 	for _, cs := range c.Callers(c.A.ConnDispatch) {
+		if h := cs.Parent(); c.eventHelperParam(h, c.A.ConnDispatch, cmdVar) >= 0 {
+			evSites = append(evSites, c.Callers(h)...)
+		}
+	}
+	for _, cs := range evSites {
 		fn := cs.Parent()
 		if ls.Dead[fn] {
 			continue
